@@ -402,6 +402,24 @@ def receiveDatagram {π : Type} (runPayload : St → Epoch → Bool → π → S
   let r := recvLoop runPayload smallDatagram pkts { s with closeAtSet := true } false
   (r.1, classify s r.1 r.2.1 r.2.2)
 
+/-! ## `_alpn_handler`: compatible version negotiation (server) -/
+
+/-- `is_version_compatible`: v1 ↔ v2 only -/
+def versionCompatible (a b : Nat) : Bool := (a == 1 && b == 0x6B3343CF) || (a == 0x6B3343CF && b == 1)
+
+/-- the `for version in self._remote_version_information.available_versions` loop of
+    `_alpn_handler` (a TLS callback, i.e. inside `receive_datagram`): stay on the current version,
+    or switch to the first compatible one — `self._cryptos[INITIAL] = self._cryptos_initial[version]`,
+    a dict keyed by `configuration.supported_versions`.  Whether the `elif` tests
+    `version in supported_versions` is read off the source (`alpnLookupGuarded`). -/
+def selectVersion (supported : List Nat) (current : Nat) : List Nat → Outcome (Option Nat)
+  | [] => .ok none
+  | v :: rest =>
+    if v = current then .ok none
+    else if (! alpnLookupGuarded || supported.contains v) && versionCompatible current v then
+      if supported.contains v then .ok (some v) else .error (.py .key)
+    else selectVersion supported current rest
+
 /-! ## The other four public calls -/
 
 /-- `get_timer()`: `timer_at = self._close_at`; the ack / loss / pacing deadlines are compared
@@ -447,12 +465,22 @@ def guardBlock (g : String) (startPacket frames : Outcome Unit) : Option String 
   | .ok () => guardWriter g frames
   | .error _ => guardWriter g startPacket
 
+/-- the close path: `for epoch …: builder.start_packet(...); self._write_connection_close_frame(...)`.
+    Whether `start_packet` sits inside the `try … except QuicPacketBuilderStop` is read off the source
+    (`closeStartPacketGuarded`); outside it, a `QuicPacketBuilderStop` (no room for a packet header:
+    anti-amplification budget used up) escapes `datagrams_to_send`. -/
+def closeBlock (startPacket frames : Outcome Unit) : Option String :=
+  if closeStartPacketGuarded then guardBlock "_write_connection_close_frame" startPacket frames
+  else match startPacket with
+    | .ok () => guardWriter "_write_connection_close_frame" frames
+    | .error e => some (errCls e)
+
 def datagramsToSend (s : St) (w : Writers) : Except String St :=
   if s.state.isEnd then .ok s
   else if s.nPaths = 0 then .ok s                                  -- if not self._network_paths: return []
   else if s.closePending then
     if ¬ s.initialized then .error "KeyError"                    -- self._cryptos[epoch]
-    else match guardBlock "_write_connection_close_frame" w.startPacket w.closeFrame with
+    else match closeBlock w.startPacket w.closeFrame with
       | some cls => .error cls
       | none => .ok (({ s with closePending := false }).closeBegin true)
   else
